@@ -452,6 +452,34 @@ def _empty_case(nc):
     return rec
 
 
+def _long_line_case(frames):
+    """a line of more than 1000 frames (a very wide crop) whose characters are spread over all of them: the per-character
+    confidences and the line confidence are still numbers in [0, 1] (judged like the zero-frame lines: kind "empty")"""
+    from pero_ocr.core.layout import TextLine
+    from pero_ocr.core.confidence_estimation import get_line_confidence
+    from pero_ocr.document_ocr.page_parser import PageParser
+    nc = 4
+    rec = {"kind": "empty", "nc": nc, "frames": frames, "outcome": "ok", "cmp": 0, "over": 0}
+    try:
+        labels = [0, 1, 2, 0, 1, 0, 2]
+        rows = np.full((frames, nc), -12.0)
+        rows[:, nc - 1] = 4.0
+        for p_, lab in zip(np.linspace(5, frames - 5, len(labels)).astype(int), labels):
+            rows[p_, :] = -12.0
+            rows[p_, lab] = 4.0
+        line = TextLine(id="l", logits=sp.csc_matrix(rows), characters=ALPHABET[:nc - 1] + ["~"], transcription="x")
+        conf = np.asarray(get_line_confidence(line, np.array(labels)), dtype=float)
+        vals = list(conf) + [float(PageParser.compute_line_confidence(line))]
+        if len(conf) != len(labels) or any(v != v for v in vals):
+            rec["outcome"] = "exception:wrong-number-or-NaN"
+            return rec
+        rec["cmp"] = _m6(vals[-1])
+        rec["over"] = _u12(max(max(v - 1.0 for v in vals), max(-v for v in vals)))
+    except Exception as ex:
+        rec["outcome"] = "exception:" + type(ex).__name__
+    return rec
+
+
 WIDE_VIS = (0.0, -3.0, -40.0, -400.0, -800.0, -1500.0)
 WIDE_LM = (None, -0.5, -20.0, -300.0, -900.0)
 WIDE_WEIGHTS = (0.0, 0.5, 1.0, 2.0, 80.0)
@@ -746,11 +774,11 @@ def run(ctx):
     ctx.sample({"config": "bag", "trace": traces[len(traces) // 2]}, limit=6)
     judge(ctx, c, traces, _what_bag, "wide-range bags of hypotheses")
     # lines without a single frame
-    traces = [_empty_case(nc) for nc in (2, 3, 5)]
+    traces = [_empty_case(nc) for nc in (2, 3, 5)] + [_long_line_case(fr) for fr in (1001, 1500, 2500, 4100)]
     for tr in traces:
         ctx.count(1, None)
-    judge(ctx, c, traces, lambda tr: "line with a 0 x %d logit matrix: compute_line_confidence / update_confidences give %s (millionths), over=%s, outcome=%s" % (
-        tr["nc"], tr["cmp"], tr["over"], tr["outcome"]), "zero-frame lines")
+    judge(ctx, c, traces, lambda tr: "line with a %d x %d logit matrix: confidences / compute_line_confidence give %s (millionths), over=%s, outcome=%s" % (
+        tr.get("frames", 0), tr["nc"], tr["cmp"], tr["over"], tr["outcome"]), "zero-frame and very long lines")
     # word and line confidences as reported by the ALTO export
     items = [(cs, (ctx.seed % 1000) * 1000000 + i) for i, cs in enumerate(alto_cases(ctx.rng, 120 if ctx.tier == "quick" else 800))]
     ctx.exhaustive = False       # the ALTO cases are a seeded sample of the per-character weight combinations
@@ -778,7 +806,7 @@ def replay(ctx, case):
         traces = [_alto_case(((tr["text"], tuple(tr["combo"])), tr["seed"]))]
         judge(ctx, c, traces, _what_alto)
     elif tr["kind"] == "empty":
-        judge(ctx, c, [_empty_case(tr["nc"])], lambda t: "line with a 0 x %d logit matrix: %s" % (t["nc"], t))
+        judge(ctx, c, [_long_line_case(tr["frames"]) if tr.get("frames") else _empty_case(tr["nc"])], lambda t: "line with a 0 x %d logit matrix: %s" % (t["nc"], t))
     else:
         scale = tr["scale"] if tr["has_lm"] else "none"
         traces = [_wide_bag_case(tr["seed"])] if tr.get("wide") else [_bag_case(((tuple(tr["v"]), tuple(tr["lm"]), scale), tr["seed"]))]
